@@ -49,6 +49,7 @@ import math
 from statistics import mean
 
 from fontTools.misc.fixedTools import otRound
+from fontTools.pens.boundsPen import BoundsPen
 
 from ufo2ft.constants import OPENTYPE_CATEGORIES_KEY
 from ufo2ft.featureCompiler import parseLayoutFeatures
@@ -175,8 +176,6 @@ class DottedCircleFilter(BaseFilter):
     def check_and_add_anchors(self, dotted_circle_glyph):
         """Check that all mark-attached anchors are present on the dotted
         circle glyph, synthesizing a position for any missing anchors."""
-        font = self.context.font
-
         # First we will gather information about all the anchors in the
         # font at present; for the anchors on marks (starting with "_")
         # we just want to know their names, so we can match them with
@@ -184,16 +183,16 @@ class DottedCircleFilter(BaseFilter):
         # the position of the anchor so we can average them.
         all_anchors = {}
         any_added = False
-        for glyph in font:
+        # measure the glyphs as they are in the glyph set being filtered: earlier
+        # filters may have moved their anchors or outlines away from the source font's
+        glyphSet = self.context.glyphSet
+        for glyph in glyphSet.values():
             width = None
-            try:
-                bounds = glyph.getBounds(font)
-                if bounds:
-                    width = bounds.xMax - bounds.xMin
-            except AttributeError:
-                bounds = glyph.bounds
-                if bounds:
-                    width = bounds[2] - bounds[0]
+            pen = BoundsPen(glyphSet)
+            glyph.draw(pen)
+            bounds = pen.bounds
+            if bounds:
+                width = bounds[2] - bounds[0]
             if width is None:
                 width = glyph.width
             for anchor in glyph.anchors:
